@@ -70,6 +70,8 @@ def shards(tier):
                     out.append({"buf": buf, "fmt": fmt, "scale": scale, "place": place})
         for lba in (True, False):
             out.append({"buf": buf, "fmt": "vmdk-stream", "tuned": True, "lba": lba})
+        for cb in (16, 20):
+            out.append({"buf": buf, "fmt": "qcow2", "snapview": True, "cb": cb})
     return out
 
 
@@ -119,7 +121,61 @@ def _tuned(case, ctx):
                 return
 
 
+def _snapview(case, ctx):
+    """A snapshot view read with many small requests that fall into one L2 table: the table (one cluster, up to 2 MiB) is
+    not re-read per request -- total I/O stays within metadata + a few times the bytes asked for, exactly as for the image."""
+    from dissect.hypervisor.disk.qcow2 import QCow2
+
+    from mc.builders import qcow2 as B
+
+    buf = bootstrap.bufsize()
+    cb = case["cb"]
+    cs = 1 << cb
+    n = 48
+    act = ["N" if i % 3 == 0 else "U" for i in range(n)]
+    snp = ["N" if i % 3 != 1 else "U" for i in range(n)]
+    sl = lambda st, base: [base + i if x == "N" else None for i, x in enumerate(st)]  # noqa: E731
+    img, _ = B.build(act, sl(act, 0), cb, 3, n * cs, snapshots=[{"states": snp, "slots": sl(snp, n), "layer": 2}])
+    models = [B.model(act, cb, n * cs, layer=1), B.model(snp, cb, n * cs, layer=2)]
+    ctx.executions += 1
+    ctx.model(case)
+    ctx.outcome("qcow2")
+    fh = img.sparse(log=True)
+    with ctx.watch(case, 300):
+        q = QCow2(fh)
+        views = [q, q.snapshots[0].open()]
+        costs = []
+        for vi, v in enumerate(views):
+            fh.reset_meter()
+            asked = 0
+            for k in range(n * 4):
+                off = (k * 7919 * 4096) % (n * cs - 4096)
+                v.seek(off)
+                got = v.read(4096)
+                asked += 4096
+                ctx.transitions += 1
+                ctx.states += 1
+                if got != models[vi].content(off, 4096):
+                    ctx.violation(case, {"subject": "qcow2.snapshot-view.read", "kind": "mismatch", "view": vi}, {"offset": off})
+                    return
+            ctx.nontrivial += 1
+            costs.append(fh.bytes_requested)
+            bound = 2 * img.meta_bytes + 4 * (asked + n * 4 * 2 * buf) + 65536
+            ctx.maxi("snapview_cost_over_bound_permille", int(1000 * fh.bytes_requested / bound))
+            if fh.bytes_requested > bound:
+                ctx.violation(case, {"subject": "qcow2.snapshot-view.io" if vi else "qcow2.io", "kind": "io-bound-exceeded", "view": vi},
+                              {"read_bytes": fh.bytes_requested, "bound": bound, "asked": asked, "cluster_size": cs})
+                return
+        # differential: the view costs what the image costs (same number of data clusters touched per request on average)
+        if costs[1] > 3 * costs[0] + (1 << 20):
+            ctx.violation(case, {"subject": "qcow2.snapshot-view.io", "kind": "view-costs-more-than-image"},
+                          {"image_bytes": costs[0], "view_bytes": costs[1]})
+
+
 def run_shard(shard, ctx):
+    if shard.get("snapview"):
+        run_case({"snapview": True, "cb": shard["cb"]}, ctx)
+        return
     if shard.get("tuned"):
         for L in range(484, 528):
             run_case({"tuned": True, "len": L, "lba": shard["lba"]}, ctx)
@@ -292,6 +348,8 @@ def _dense_lists(placed, total, data_tok, hole_tok, cap=None, fmt=None):
 def run_case(case, ctx):
     if case.get("tuned"):
         return _tuned(case, ctx)
+    if case.get("snapview"):
+        return _snapview(case, ctx)
     fmt, scale, place, density = case["fmt"], case["scale"], case["place"], case["density"]
     f = FORMATS[fmt]
     unit = f["unit"]
